@@ -354,6 +354,11 @@ def r3_delete(chk, prog, m):
                 got = mem.get(loc)
                 if got is None:
                     got = P.init_mem(lf.state, loc[0], loc[1], None)
+                if loc == _loc(3, EF["k"]) and _norm(got) == pe.C(EMPTY):
+                    # handing the slot back as EMPTY is sound only when the next slot of the probe sequence is EMPTY
+                    nxt_k = slots[4][EF["k"]]
+                    if nxt_k == pe.C(EMPTY):
+                        continue
                 if _norm(got) != _norm(want):
                     bad = "after the delete %s holds %s, expected %s" % (_locname(loc), _show(got), _show(want))
                     break
@@ -371,6 +376,29 @@ def r3_delete(chk, prog, m):
             chk.refuted(rid, f.name, sig, f.entry.term.locstr(), bad)
         else:
             chk.proven(rid, f.name, sig, f.entry.term.locstr(), "%d path(s): count, slot, neighbours, head/tail and release as specified" % len(leaves))
+    # the tombstone: a slot whose probe successor is occupied must become LH_FREED (never LH_EMPTY), including the last slot,
+    # whose successor is slot 0
+    for name, dslot, succ in (("successor slot live", 3, 4), ("last slot, successor is slot 0", SIZE - 1, 0)):
+        slots = {i: _sent(EMPTY) for i in range(SIZE)}
+        slots[dslot] = _live(dslot)
+        slots[succ] = _live(succ)
+        slots[dslot][EF["next"]] = _ptr(succ)
+        slots[succ][EF["prev"]] = _ptr(dslot)
+        shape = {"t": {TF["size"]: pe.C(SIZE), TF["count"]: pe.C(2), TF["table"]: ("ptr", "tab", ()), TF["head"]: _ptr(dslot),
+                       TF["tail"]: _ptr(succ), TF["free_fn"]: ("ptr", "freefn", ())}, "slots": slots}
+        P = TablePE(prog, shape)
+        leaves = P.run(f, [("ptr", "t", ()), _ptr(dslot)], pe.State())
+        sig = "delete: tombstone, " + name
+        bad = None
+        for lf in leaves:
+            got = lf.state.mem.get(_loc(dslot, EF["k"]))
+            if lf.kind != "ret" or lf.value != pe.C(0) or got is None or _norm(got) != pe.C(FREED):
+                bad = ("after deleting the entry in slot %d (its probe successor, slot %d, is occupied) the slot holds %s: a lookup of a key "
+                       "that was inserted past this slot stops here and reports the key absent" % (dslot, succ, _show(got) if got is not None else "its old key"))
+        if bad:
+            chk.refuted(rid, f.name, sig, f.entry.term.locstr(), bad)
+        else:
+            chk.proven(rid, f.name, sig, f.entry.term.locstr(), "slot becomes LH_FREED")
     # deleting a slot that holds a sentinel is refused without any write
     for sv, nm in ((EMPTY, "LH_EMPTY"), (FREED, "LH_FREED")):
         slots = {i: _sent(EMPTY) for i in range(SIZE)}
